@@ -102,6 +102,26 @@ def fault_case(draw, spec, cp):
 
 
 @st.composite
+def serial_case(draw, spec, cp):
+    """history, save/load into a fresh object at quiescent points with empty queues (text and binary archives), then
+    continuations of original and loaded objects"""
+    ops = [dict(op='S', val=draw(valuation()), scripts={})]
+    live = [0]
+    nobj = 1
+    for _ in range(draw(st.integers(1, cp.get('max_ops', 20)))):
+        kind = draw(st.sampled_from(['d', 'd', 'd', 'd', 'd', 'v', 'w']))
+        if kind == 'd':
+            ops.append(dict(op='P', pick=draw(pick()), val=draw(valuation()), scripts={}))
+        elif kind == 'v' and nobj < 4:
+            ops.append(dict(op='V', fmt=draw(st.sampled_from(['t', 'b']))))
+            live.append(nobj)
+            nobj += 1
+        elif kind == 'w' and len(live) > 1:
+            ops.append(dict(op='W', obj=draw(st.sampled_from(live))))
+    return ops
+
+
+@st.composite
 def copy_case(draw, spec, cp):
     """history on object 0, then copies / assignments / moves at arbitrary quiescent points with different continuations
     for original and copy (interleaved through switch operations)"""
@@ -252,10 +272,10 @@ def copy_refs(ex, concrete, per_op):
         if idx >= len(per_op):
             break
         k = c['op']
-        if k == 'C' or k == 'M':
-            tag = [t for t in per_op[idx] if t.startswith('[%s->' % k)]
+        if k in ('C', 'M', 'V'):
+            tag = [t for t in per_op[idx] if t.startswith('[%s' % k) and '->' in t]
             if tag:
-                hist[int(tag[0][4:-1])] = list(hist.get(cur, []))
+                hist[int(tag[0].split('->')[1].rstrip(']'))] = list(hist.get(cur, []))
         elif k == 'A':
             if any(t.startswith('[A') and 'skip' not in t for t in per_op[idx]):
                 hist[c['dst']] = list(hist.get(c['src'], []))
@@ -370,7 +390,7 @@ def run_job(job):
                     variants.append((ck, pk, dict(fault_index=fi, k=k, baseline=per_op)))
                 if not variants:
                     res['classes']['fault_op_without_callbacks'] = res['classes'].get('fault_op_without_callbacks', 0) + 1
-        if job.get('mode') == 'copy':
+        if job.get('mode') in ('copy', 'serial'):
             try:
                 variants = [(concrete, per_op, copy_refs(ex, concrete, per_op))]
             except (SUT.SutCrash, SUT.SutHang) as e:
@@ -404,7 +424,7 @@ def run_job(job):
                     kept.append((False, cc))
 
     sd = int(hashlib.sha256(('%s/%s/%s/%s' % (job['seed'], spec['id'], job['cfg'], job['prop'])).encode()).hexdigest()[:8], 16)
-    strat = fault_case(spec, job['cp']) if job.get('mode') == 'fault_enum' else (copy_case(spec, job['cp']) if job.get('mode') == 'copy' else abstract_case(spec, job['cp']))
+    strat = fault_case(spec, job['cp']) if job.get('mode') == 'fault_enum' else (copy_case(spec, job['cp']) if job.get('mode') == 'copy' else (serial_case(spec, job['cp']) if job.get('mode') == 'serial' else abstract_case(spec, job['cp'])))
     test = given(strat)(body)
     test = seed(sd)(test)
     test = settings(max_examples=job['max_examples'], database=None, deadline=None, derandomize=False,
